@@ -242,6 +242,10 @@ def evaluate_expression(expr, options=None, locals_=None, builtins=True):
             except BareScriptRuntimeError:
                 raise
             except Exception as error: # pylint: disable=broad-exception-caught
+                # A bad include statement within a script function? Library function parser errors are failures.
+                if isinstance(error, BareScriptParserError) and getattr(func_value, 'func', None) is _script_function:
+                    raise
+
                 # Log and return null
                 log_fn = options.get('logFn') if options is not None else None
                 if log_fn is not None and options.get('debug'):
